@@ -18,6 +18,7 @@
     * `removeTautologies_shrinks`, `removeTautologies_idem`, `idstar_line3_once`
                                 the line-3 recursion strictly shrinks the event and is taken at most once
     * `idstar_zero_line2_sound_partial`   Zero returned by line 2 (possibly after line 3) is a sound answer
+    * `idstar_zero_line5_sound`           Zero returned by line 5 ('inconsistent' counterfactual graph) is a sound answer
     * `districts_ge_two`, `idstar_no_runtime_error`   the `RuntimeError` of line 6 is unreachable
     * `idstar_error_taxonomy`   with an acyclic input graph the only outcomes are an estimand, Zero, 'unidentifiable',
                                 or the two internal conditions `fuel` / null counterfactual graph
@@ -34,8 +35,8 @@
   --      `+X` is `ν X true`, a subscript `-X` is the value bound by an enclosing `Sum[X]`, else `ν X false`)
   --   theorem idstar_zero_sound : idStar ordf dordf G ev = .ok .zero → M.Compatible G → EventWF M ev → ν.Distinct →
   --       probEvent M ν ev = 0
-  --     proved here only for Zero coming from line 2 (`idstar_zero_line2_sound_partial`); Zero from line 5 is C18's
-  --     `cg_inconsistent_sound_partial` (relative to Lemma 24); Zero from a factor of line 6 is open
+  --     proved for Zero coming from line 2 (`idstar_zero_line2_sound_partial`) and from line 5 (`idstar_zero_line5_sound`, by
+  --     C18's `cg_prob`); Zero from a factor of line 6 is open (and false today: F10/M5)
   --   theorem idstar_terminates : G acyclic → idStar ordf dordf G ev ≠ .error (.internal "fuel")
   --     proved: the line-3 recursion (at most once, strictly smaller event); the line-6 recursion on the original graph
   --     is only shown to be well defined for every fuel and monotone in the fuel; that `2|V| + |event| + 4` always
@@ -196,6 +197,16 @@ theorem idstar_nonempty_graph {ordf : List World → List World} (hord : GoodOrd
 
 /-- `GoodOrder` is satisfiable: the identity order (the worlds in order of first occurrence) -/
 example : GoodOrder id := fun vs => extractInterventions_ok vs
+
+/-- **Zero from line 5 is sound** (by C18's `cg_prob`): when `make_counterfactual_graph` reports 'inconsistent' the event has
+probability 0 in every functional SCM compatible with the graph (hypotheses as in `cg_prob`) -/
+theorem idstar_zero_line5_sound (M : Model) (ν : BaseValues) (hν : ν.Distinct) (hM : Compatible M G) (hG : G.WF)
+    (hdl : ∀ e ∈ G.di, e.1 ≠ e.2) (hbl : ∀ e ∈ G.bi, e.1 ≠ e.2) (ev : Event) (hev : EvOK ev) (topo : List Name)
+    (htopo : G.topologicalSort = .ok topo) (hpf : ∀ v, ∀ p ∈ M.pa v, Before topo v p)
+    (hws : (ordf (extractInterventions ev.keys)).Nodup) (hwne : ∀ w ∈ ordf (extractInterventions ev.keys), w ≠ [])
+    (hwcs : ∀ w ∈ ordf (extractInterventions ev.keys), ConsistentSubs w) (g : MG Var)
+    (h : makeCounterfactualGraph ordf G ev = .ok (g, none)) : probEvent M ν ev = 0 :=
+  (cg_prob M ν hν G hM hG hdl hbl ordf ev hev topo htopo hpf hws hwne hwcs).2 g h
 
 /-! ## 4. non-vacuity: concrete runs of the model (kernel-evaluated) -/
 
